@@ -373,6 +373,10 @@ func bundleGen(args []string) error {
 				e.Hdrs = append(e.Hdrs, hent{N: ints([]byte(":status")), Vs: [][]int{ints([]byte("200"))}}, hent{N: ints([]byte("A-First")), Vs: [][]int{ints([]byte("1"))}}, hent{N: ints([]byte("Zz-Last")), Vs: [][]int{ints([]byte("3"))}})
 			case 2:
 				e.Hdrs = append(e.Hdrs, hent{N: []int{}, Vs: [][]int{ints([]byte("value of the empty name"))}})
+			case 3, 4:
+				// a name that maps to NO value (a legal state of http.Header: h["X-Trace"] = nil / []string{}): the comma-join of
+				// zero values is the empty string, and that is the field the file carries
+				e.Hdrs = append(e.Hdrs, hent{N: ints([]byte("X-No-Values")), Vs: [][]int{}})
 			}
 			sort.Slice(e.Hdrs, func(a, c int) bool { return string(unints(e.Hdrs[a].N)) < string(unints(e.Hdrs[c].N)) })
 			bl := bodyLens[r.Intn(len(bodyLens))]
